@@ -5,7 +5,7 @@ def plan(tier):
     hs = Harness("c12_seq", ["harness/c12_counting_ptr_seq.cpp"], flavor="asan")
     ca = Harness("c12_conc_asan", ["harness/c12_counting_ptr_conc.cpp"], flavor="asan", shim=True, extra_flags=["-fno-access-control"])
     ct = Harness("c12_conc_tsan", ["harness/c12_counting_ptr_conc.cpp"], flavor="tsan", shim=True, extra_flags=["-fno-access-control"])
-    dl = "120" if tier == "quick" else "900"
+    dl = "120" if tier == "quick" else "1200"
     return {
         "harnesses": [hs, ca, ct],
         "runs": [(hs, ["--tier", tier], 2),
